@@ -531,6 +531,13 @@ def run(ctx):
         for _ in range(ctx.n(500, 20000)):
             cases.append(gen_vcase(ctx.rng))
         cases += [c for c in c02.fixed_runs() if not c.get("expect_failure")]
+        # critical goals with a function nominal other than 1, a later priority pushing against them
+        cases.append({"k": "run", "times": [0, 1, 2], "E": 1, "p": [0], "variant": "multi", "options": {},
+                      "goals": [{"path": True, "fn": "y", "prio": 1, "critical": True, "tmax": 6.0, "nominal": 10},
+                                {"path": True, "fn": "ny", "prio": 2, "order": 1, "weight": 1, "nominal": 1}]})
+        cases.append({"k": "run", "times": [0, 1, 2], "E": 1, "p": [0], "variant": "multi", "options": {},
+                      "goals": [{"path": False, "fn": "y", "k": 2, "prio": 1, "critical": True, "tmin": 8.0, "nominal": "1/10"},
+                                {"path": False, "fn": "y", "k": 2, "prio": 2, "order": 1, "weight": 1, "nominal": 1}]})
         for _ in range(ctx.n(14, 500)):
             cases.append(c02.gen_run(ctx.rng))
         for _ in range(ctx.n(6, 150)):
